@@ -125,7 +125,7 @@ def verify(targets=None, props=None, tier='quick', timeout=None, verbose=False, 
         for oi, ob in enumerate(rep.obligations):
             if only_names and not any(s in ob.name for s in only_names):
                 continue
-            text = smt.script(list(ob.pc) + [smt.Not(ob.goal)])
+            text = smt.script(list(ob.pc) + [smt.Not(ob.goal)], hide=getattr(ob, 'hide', ()))
             tasks.append(((ri, oi), text))
         if rep.status == 'ok' and getattr(rep, 'entry_pc', None) is not None:
             tasks.append(((ri, 'cover'), smt.script(list(rep.entry_pc))))
